@@ -72,6 +72,7 @@ impl Source {
 //@include prelude_limit.rs
 //@include prelude_value.rs
 pub enum ValueKind { Null, Boolean, Int, Long, Float, Double, Bytes, String, Fixed, Enum, Union, Array, Map, Record, Date, Decimal, BigDecimal, TimeMillis, TimeMicros, TimestampMillis, TimestampMicros, TimestampNanos, LocalTimestampMillis, LocalTimestampMicros, LocalTimestampNanos, Duration, Uuid }
+#[derive(PartialEq, Eq, Clone, Copy, Structural)]
 pub enum SchemaKind { Null, Boolean, Int, Long, Float, Double, Bytes, String, Array, Map, Union, Record, Enum, Fixed, Decimal, BigDecimal, Uuid, Date, TimeMillis, TimeMicros, TimestampMillis, TimestampMicros, TimestampNanos, LocalTimestampMillis, LocalTimestampMicros, LocalTimestampNanos, Duration, Ref }
 pub struct Error { pub details: Box<Details> }
 pub type AvroResult<T> = Result<T, Error>;
